@@ -20,7 +20,7 @@ use metrique_aggregation::aggregator::{Aggregate, KeyedAggregator};
 use metrique_aggregation::histogram::{Histogram, SortAndMerge};
 use metrique_aggregation::sink::{non_aggregate, MutexSink, TeeSink, WorkerSink};
 use metrique_aggregation::traits::{AggregateSink, AggregateSinkRef, AggregateStrategy, FlushableSink, Key};
-use metrique_aggregation::value::{KeepLast, Sum};
+use metrique_aggregation::value::{Distribution, Flatten, KeepLast, MergeOptions, Sum};
 use metrique_writer::test_util::{to_test_entry, TestEntry};
 use metrique_writer::{AnyEntrySink, Entry, Observation};
 use metrique_writer_core::sink::FlushWait;
@@ -49,6 +49,32 @@ pub struct Call {
     /// keep-last over an optional value: `None` is a value like any other (absent when it came last)
     #[aggregate(strategy = KeepLast)]
     opt_last: Option<u64>,
+    /// the sum of the values that are present (absent ones are skipped)
+    #[aggregate(strategy = MergeOptions<Sum>)]
+    opt_sum: Option<u64>,
+    /// the last value that was present (an absent one does not overwrite it)
+    #[aggregate(strategy = MergeOptions<KeepLast>)]
+    opt_keep: Option<u64>,
+    /// every value, equal ones merged
+    #[aggregate(strategy = Distribution)]
+    dist: u64,
+}
+
+#[aggregate]
+#[metrics]
+pub struct Child {
+    #[aggregate(strategy = Sum)]
+    cw: u64,
+    #[aggregate(strategy = KeepLast)]
+    cl: u64,
+}
+
+/// what an input carries in the fields derived from (weight, last)
+fn opt_sum_of(i: &Input) -> Option<u64> {
+    if i.last % 2 == 0 { Some(i.weight) } else { None }
+}
+fn child_of(i: &Input) -> Child {
+    Child { cw: i.weight * 3, cl: i.last + 1 }
 }
 
 #[aggregate]
@@ -66,6 +92,19 @@ pub struct Plain {
     multi: Histogram<u64, SortAndMerge>,
     #[aggregate(strategy = KeepLast)]
     opt_last: Option<u64>,
+    /// the sum of the values that are present (absent ones are skipped)
+    #[aggregate(strategy = MergeOptions<Sum>)]
+    opt_sum: Option<u64>,
+    /// the last value that was present (an absent one does not overwrite it)
+    #[aggregate(strategy = MergeOptions<KeepLast>)]
+    opt_keep: Option<u64>,
+    /// every value, equal ones merged
+    #[aggregate(strategy = Distribution)]
+    dist: u64,
+    /// an aggregatable child, merged field by field
+    #[aggregate(strategy = Flatten)]
+    #[metrics(flatten)]
+    child: Child,
 }
 
 /// the optional companion of `last`: absent for every third value
@@ -78,7 +117,7 @@ fn mk_plain(i: &Input) -> Plain {
     for _ in 0..(1 + i.id % 3) {
         multi.add_value(i.weight % 3);
     }
-    Plain { weight: i.weight, last: i.last, ident: i.id, multi, opt_last: opt_of(i.last) }
+    Plain { weight: i.weight, last: i.last, ident: i.id, multi, opt_last: opt_of(i.last), opt_sum: opt_sum_of(i), opt_keep: opt_of(i.last), dist: i.weight % 5, child: child_of(i) }
 }
 
 /// an aggregate embedded in a parent unit-of-work entry (closed together with it)
@@ -138,7 +177,7 @@ pub enum AK {
     Merge { tag: u32, id: u64 },
     FlushBegin { tag: u32 },
     FlushEnd { tag: u32 },
-    Emit { sink: u32, keys: Vec<(String, String)>, weight: Option<u64>, last: Option<u64>, ids: Vec<(u64, u64)>, raw_id: Option<u64>, tag: Option<String>, multi: Vec<(u64, u64)>, opt_last: Option<u64> },
+    Emit { sink: u32, keys: Vec<(String, String)>, weight: Option<u64>, last: Option<u64>, ids: Vec<(u64, u64)>, raw_id: Option<u64>, tag: Option<String>, multi: Vec<(u64, u64)>, opt_last: Option<u64>, extra: BTreeMap<String, u64>, dist: Vec<(u64, u64)> },
     LoggedDrop { tag: u32 },
     FlushReq { fid: u64 },
     FlushDone { fid: u64 },
@@ -315,7 +354,14 @@ fn emit_from(no: u32, t: &TestEntry, raw: bool) -> AK {
     let tag = t.values.get("tag").cloned();
     let multi = t.metrics.get("multi").map(|m| obs_pairs(&m.distribution)).unwrap_or_default();
     let opt_last = t.metrics.get("opt_last").map(|m| m.as_u64());
-    AK::Emit { sink: no, keys, weight, last, ids, raw_id, tag, multi, opt_last }
+    let mut extra = BTreeMap::new();
+    for name in ["opt_sum", "opt_keep", "cw", "cl"] {
+        if let Some(m) = t.metrics.get(name) {
+            extra.insert(name.to_string(), m.as_u64());
+        }
+    }
+    let dist = t.metrics.get("dist").map(|m| obs_pairs(&m.distribution)).unwrap_or_default();
+    AK::Emit { sink: no, keys, weight, last, ids, raw_id, tag, multi, opt_last, extra, dist }
 }
 
 impl AnyEntrySink for CaptureSink {
@@ -374,7 +420,7 @@ pub struct AggRun {
 }
 
 fn mk_call(i: &Input) -> Call {
-    Call { endpoint: i.key.clone(), weight: i.weight, last: i.last, ident: i.id, tag: format!("t{}", i.last), opt_last: opt_of(i.last) }
+    Call { endpoint: i.key.clone(), weight: i.weight, last: i.last, ident: i.id, tag: format!("t{}", i.last), opt_last: opt_of(i.last), opt_sum: opt_sum_of(i), opt_keep: opt_of(i.last), dist: i.weight % 5 }
 }
 
 enum Target {
@@ -680,6 +726,8 @@ struct Emitted {
     tag: Option<String>,
     multi: Vec<(u64, u64)>,
     opt_last: Option<u64>,
+    extra: BTreeMap<String, u64>,
+    dist: Vec<(u64, u64)>,
 }
 
 pub fn check_c10(plan: &Value, run: &AggRun) -> Option<Violation> {
@@ -696,7 +744,7 @@ pub fn check_c10(plan: &Value, run: &AggRun) -> Option<Violation> {
     let mut logged_drop = None;
     for e in h {
         match &e.k {
-            AK::Emit { sink, keys, weight, last, ids, raw_id, tag, multi, opt_last } => emitted.push(Emitted { seq: e.seq, sink: *sink, keys: keys.clone(), weight: *weight, last: *last, ids: ids.clone(), raw_id: *raw_id, tag: tag.clone(), multi: multi.clone(), opt_last: *opt_last }),
+            AK::Emit { sink, keys, weight, last, ids, raw_id, tag, multi, opt_last, extra, dist } => emitted.push(Emitted { seq: e.seq, sink: *sink, keys: keys.clone(), weight: *weight, last: *last, ids: ids.clone(), raw_id: *raw_id, tag: tag.clone(), multi: multi.clone(), opt_last: *opt_last, extra: extra.clone(), dist: dist.clone() }),
             AK::SendBegin { id } => {
                 send_inv.insert(*id, e.seq);
             }
@@ -734,6 +782,10 @@ pub fn check_c10(plan: &Value, run: &AggRun) -> Option<Violation> {
         let mut seen: HashMap<u64, usize> = HashMap::new();
         for (ei, em) in emitted.iter().enumerate().filter(|(_, e)| e.sink == *sink) {
             let mut wsum = 0u64;
+            let mut osum = 0u64; // sum of the optional values that were present
+            let mut latest_some: Option<(u64, u64)> = None; // (merge seq, value) of the last *present* optional value
+            let mut want_dist: BTreeMap<u64, u64> = BTreeMap::new();
+            let mut all_placed = true;
             let mut latest: Option<(u64, u64)> = None; // (merge seq, last value)
             for (id, n) in &em.ids {
                 if *n != 1 {
@@ -762,10 +814,20 @@ pub fn check_c10(plan: &Value, run: &AggRun) -> Option<Violation> {
                     }
                 }
                 wsum += inp.weight;
+                // (spelled out here, independently of the constructor: present iff `last` is even)
+                osum += if inp.last % 2 == 0 { inp.weight } else { 0 };
+                *want_dist.entry(inp.weight % 5).or_insert(0) += 1;
                 if let Some(p) = merge_pos.get(id) {
                     if latest.map(|l| *p > l.0).unwrap_or(true) {
                         latest = Some((*p, inp.last));
                     }
+                    if let Some(v) = opt_of(inp.last) {
+                        if latest_some.map(|l| *p > l.0).unwrap_or(true) {
+                            latest_some = Some((*p, v));
+                        }
+                    }
+                } else {
+                    all_placed = false;
                 }
             }
             if em.ids.is_empty() && *keying != "none" {
@@ -775,7 +837,23 @@ pub fn check_c10(plan: &Value, run: &AggRun) -> Option<Violation> {
                 if em.weight != Some(wsum) {
                     return Some(Violation::new("sum_mismatch", format!("aggregate {:?} (sink {sink}) reports sum {:?}, the inputs it contains sum to {wsum}", em.keys, em.weight)));
                 }
+                if em.extra.get("opt_sum") != Some(&osum) {
+                    return Some(Violation::new("sum_mismatch", format!("aggregate {:?} (sink {sink}) reports opt_sum={:?} (sum over optional values), the present values of the inputs it contains sum to {osum}", em.keys, em.extra.get("opt_sum"))));
+                }
+                if *keying == "none" && em.extra.get("cw") != Some(&(3 * wsum)) {
+                    return Some(Violation::new("sum_mismatch", format!("aggregate {:?} (sink {sink}) reports cw={:?} (summed field of a flattened child), the inputs it contains sum to {}", em.keys, em.extra.get("cw"), 3 * wsum)));
+                }
+                let want_dist: Vec<(u64, u64)> = want_dist.into_iter().collect();
+                if em.dist != want_dist {
+                    return Some(Violation::new("distribution_field_miscounted", format!("aggregate {:?} (sink {sink}): the Distribution-strategy field reports {:?}, the inputs it contains carried {:?} (value, occurrences)", em.keys, em.dist, want_dist)));
+                }
+                if all_placed && latest.is_some() && em.extra.get("opt_keep").copied() != latest_some.map(|l| l.1) {
+                    return Some(Violation::new("keep_last_mismatch", format!("aggregate {:?} (sink {sink}) reports opt_keep={:?} (keep-last that skips absent values), the last present value merged was {:?}", em.keys, em.extra.get("opt_keep"), latest_some.map(|l| l.1))));
+                }
                 if let Some((_, lv)) = latest {
+                    if *keying == "none" && em.extra.get("cl") != Some(&(lv + 1)) {
+                        return Some(Violation::new("keep_last_mismatch", format!("aggregate {:?} (sink {sink}) reports cl={:?} (keep-last field of a flattened child), the input merged last carried {}", em.keys, em.extra.get("cl"), lv + 1)));
+                    }
                     if em.last != Some(lv) {
                         return Some(Violation::new("keep_last_mismatch", format!("aggregate {:?} (sink {sink}) reports last={:?}, the input merged last carried {lv}", em.keys, em.last)));
                     }
